@@ -99,6 +99,25 @@ while True:
     db.Setting = d0.On + f()
     yield_()
 """, [D])
+C["C04-device-id-captured"] = ("C04", H + """def h(i):
+    vent = Device(i)
+    t = d0.Setting * 2
+    vent.On = t + 1
+    vent.Setting = t
+while True:
+    h(d1.Setting)
+    h(d1.On)
+    yield_()
+""", [D])
+C["C13-alias-shadows-local"] = ("C13", {"": H + """from library import a as t
+while True:
+    t.f(d1.On)
+    t.f(d1.Setting)
+    yield_()
+""", "a": H + """def f(p):
+    t = p + d0.On
+    db.Setting = t * 2
+"""}, [D])
 C["C06-forlist-call"] = ("C06", H + """def f(p):
     db.Setting = p + d0.Setting
 while True:
